@@ -44,14 +44,14 @@ def JS(driver, variant, mode, quick, thorough, masks, macro='VF_CFG_MASK', **kw)
     return out
 
 
-M4 = [0x03, 0x0c, 0x30, 0xc0]
+M4 = [0x03, 0x0c, 0x30, 0x2c0]
 CHECKS = {}
 
 CHECKS['C01'] = dict(
     title='CallbackList invokes exactly the current callbacks, once each, in list order',
     level='exploration',
     rule='seeded histories of append/prepend/insert/remove/ownsHandle/empty/forEach/forEachIf/invoke/eventutil helpers over live, stale, '
-         'empty and repeated handles, 8 configurations (4 prototypes, 5 policies, CallbackList and dispatcher lists), each step compared with '
+         'empty and repeated handles and EQUAL callbacks added more than once, 9 configurations (4 prototypes, 6 policies, CallbackList and dispatcher lists), each step compared with '
          'the sequential model + structural walk + ledger; user code that runs INSIDE an operation (the callback copy constructor inside insert) may remove the referenced callback; the histories '
          'in which operations are issued from inside invocations (C02 programs) are run as well, since they are list histories too; a case is non-trivial when it contains >=1 successful remove and '
          '>=1 invocation; distinct = distinct hash of the full operation/result trace',
@@ -99,11 +99,11 @@ CHECKS['C03'] = dict(
     parallel=8,
 )
 
-MD = [0x007, 0x038, 0x1c0, 0xe00, 0x3000]
+MD = [0x007, 0x038, 0x1c0, 0xe00, 0x7000]
 CHECKS['C04'] = dict(
     title="dispatch reaches exactly the dispatched event's listeners, arguments intact",
     level='exploration',
-    rule='14 dispatcher configurations (keys: int, enum class, std::string, OrdKey(<)->std::map, HashKey(hash,==)->unordered_map with 4 buckets; prototypes by value / const& / & ; '
+    rule='15 dispatcher configurations (keys: int, enum class, std::string, OrdKey(<)->std::map, HashKey(hash,==)->unordered_map with 4 buckets; prototypes by value / const& / & ; '
          'include- and exclude-event forms; getEvent policies reading a field, a by-value movable argument (taken by const& and BY VALUE) and a non-identity policy in the exclude-event form; user map; custom Callback; 3 threading policies) x seeded histories of '
          'append/prepend/insert/remove/hasAnyListener/ownsHandle/forEach/forEachIf per key over 5 keys (differing only in case/length, empty) interleaved with dispatches whose arguments are '
          'lvalues, const lvalues and temporaries; listeners consume whatever they receive as rvalues; every listener call is checked (which listener, order, argument fingerprints) online; '
@@ -121,7 +121,7 @@ CHECKS['C05'] = dict(
     title='EventQueue consumes every queued event exactly once, in FIFO order',
     level='exploration',
     rule='seeded single-threaded histories (50-200 ops) of enqueue/process/processOne/processIf/processUntil/peekEvent/takeEvent/dispatch(QueuedEvent)/'
-         'clearEvents/emptyQueue/listener changes, with operations issued from inside listeners and predicates (depth<=2), 9 queue configurations '
+         'clearEvents/emptyQueue/waitFor(0)/listener changes, DisableQueueNotify objects created and destroyed in any order (they must change nothing but waitFor), with operations issued from inside listeners and predicates (depth<=2), 9 queue configurations '
          '(int/std::string keys, by-value/by-reference/move-only payloads, include/exclude-event forms, getEvent policies incl. non-identity in the exclude form and by-value parameter with temporaries, ordered lists); the model '
          'predicts the next callback (listener, predicate or return) and every real callback is compared with it; per-event state machine and payload '
          'ledger; non-trivial = >=1 processing call with events and (>=1 re-queued event or >=1 nested operation); distinct = trace hash',
